@@ -5,7 +5,7 @@ cd "$(dirname "$0")/.." || exit 2
 pat="${1:-*}"; bad=0
 if [ -n "$(git -C /repo status --short)" ]; then echo "/repo is not clean"; exit 2; fi
 for d in seeded/$pat/; do
-  id=$(basename "$d"); p=$(python3 -c "import json;print(json.load(open('$d/meta.json'))['property'])")
+  id=$(basename "$d"); p=$(python3 -c "import json;m=json.load(open('$d/meta.json'));print(m['check']['cmd'].split()[1])")
   if ! git -C /repo apply --check "$PWD/$d/patch.diff" 2>/dev/null; then
     if git -C /repo apply --check -3 "$PWD/$d/patch.diff" 2>/dev/null; then :; else echo "$id patch-does-not-apply"; continue; fi
   fi
